@@ -201,7 +201,13 @@ def gen_prime(rng, f, n):
                 out.append(case1(T + "sqrt " + f.w(x, rng), exp, cl, "sqrt"))
         else:
             # batch inversion; sizes around the internal block size (200)
-            nn = rng.choice([0, 1, 2, 3, 199, 200, 201, 399, 400, 401, rng.randrange(1, 60)])
+            # (the backends cut the batch in blocks of 200, 100 or 1024/limbs = 73, 128, 146, 170, 204, 256, 341, 512 elements)
+            BLK = rng.choice([200, 200, 200, 100, 73, 146, 128, 170, 204, 256, 341, 512, 10])
+            if rng.randrange(3):
+                nn = rng.choice([0, 1, 2, 3, 199, 200, 201, 399, 400, 401, rng.randrange(1, 60)])
+                BLK = 200
+            else:
+                nn = BLK * rng.choice([1, 1, 2]) + rng.choice([-1, 0, 0, 1])
             base = hostile_raw(rng, f)
             step = hostile_raw(rng, f)
             vb, vs = base % q, step % q
@@ -213,7 +219,7 @@ def gen_prime(rng, f, n):
                 elif zmode == 1:
                     zs = {nn - 1}
                 elif zmode == 2:
-                    zs = {i for i in (199, 200, 201, 0, nn - 1) if i < nn}
+                    zs = {i for i in (BLK - 1, BLK, BLK + 1, 0, nn - 1) if 0 <= i < nn}
                 elif zmode == 3:
                     zs = set(range(nn))
                 elif zmode == 4:
@@ -226,7 +232,7 @@ def gen_prime(rng, f, n):
                 vals.append(v)
             exp = " ".join(f.enc(pow(v, -1, q) if v else 0) for v in vals) or "-"
             nz = sum(1 for v in vals if v == 0)
-            cl = ["batch:n=%d" % nn if nn in (0, 1, 2, 199, 200, 201, 400, 401) else "batch:n=other",
+            cl = ["batch:n=%d" % nn if nn in (0, 1, 2, 199, 200, 201, 400, 401) else "batch:n=other", "batch:block=%d:%s" % (BLK, "exact" if nn and nn % BLK == 0 else "other"),
                   "batch:zeros=%s" % ("none" if nz == 0 else ("all" if nz == nn else "some"))]
             line = T + "batch_invert_seq %d %s %s %s" % (nn, f.w(base, rng), f.w(step, rng), " ".join(str(z) for z in sorted(zs)))
             out.append(case1(line.rstrip(), "OK " + exp, cl, "batch"))
@@ -330,7 +336,7 @@ def main(argv):
         rep.merge(m)
         rep.require("div:by-zero", "div:by-zero-nontrivial", "div:operand>=q", "div:divisor<=64bits", "div:shares-top33-with-q",
                     "legendre:0", "legendre:1", "legendre:-1", "sqrt:square", "sqrt:nonsquare", "sqrt:zero", "sqrt_ext:nonsquare",
-                    "batch:n=200", "batch:n=201", "batch:n=401", "batch:zeros=all", "batch:zeros=some", "b127:invert-zero", "b254:qsolve-tr1",
+                    "batch:n=200", "batch:n=201", "batch:n=401", "batch:block=73:exact", "batch:block=146:exact", "batch:block=100:exact", "batch:block=256:exact", "batch:zeros=all", "batch:zeros=some", "b127:invert-zero", "b254:qsolve-tr1",
                     "b254:qsolve-tr0", "b127:halftrace")
     except Inconclusive as e:
         rep.incon.append(str(e))
